@@ -332,6 +332,12 @@ def _run_loop_with_spec(it, node, frame, spec, kind, iterable=None):
             it.assign(gnode.generators[0].target, x, sub)
             x = it.eval(gnode.elt, sub)
         it.assign(node.target, x, frame)
+    # ghost copies of the loop targets as bound for this iteration (`_entry_<name>`): clauses that speak of "the
+    # element of this iteration" use them, so a body that rebinds the target cannot move the goal posts
+    if loop_kind in ('seq', 'range') and not skipped:
+        for n_ in ast.walk(node.target):
+            if isinstance(n_, ast.Name) and n_.id in frame.locals:
+                frame.locals['_entry_' + n_.id] = frame.locals[n_.id]
     # ---- body
     try:
         if not skipped:
